@@ -47,6 +47,8 @@ def encodeXterm (u : Uni) (key : Key) (deckpam decckm : Bool) : Str :=
   match plain with
   | some s => s
   | none =>
+  if kc = KeyTab ∧ xtermMods = ModShift then [27, 91, 90]   -- backtab
+  else
   match lookup kc xtermKeymap with
   | some (number, final) => [27, 91] ++ decimal number ++ [59] ++ decimal ((xtermMods : Int) + 1) ++ strOfRune final
   | none =>
@@ -59,7 +61,7 @@ def encodeXterm (u : Uni) (key : Key) (deckpam decckm : Bool) : Str :=
         | some out => esc ++ (out.map fun r => if validRune r then r else 0xFFFD)
         | none => esc ++ strOfRune (kc - 0x40)
     else if xtermMods &&& ModShift ≠ 0 then
-      if key.shifted > 0 then esc ++ strOfRune key.shifted else esc ++ strOfRune kc
+      if key.shifted > 0 then esc ++ strOfRune key.shifted else esc ++ strOfRune (u.toUpper kc)
     else esc ++ strOfRune kc
   else []
 
